@@ -33,6 +33,10 @@ HISTORIES = [
     ("pack", BASE + [("append", "A", "inbox", [], 0), ("append", "A", "inbox", [], 0)],
      {"pre": PRE + [("store", "A", [[1, 1], [4, 4]], "+", ["Deleted"], False, False), ("expunge", "A")],
       "body": [("poll",), ("poll",)]}, infl("Poll"), {"pack_limit": 2, "pack_ratio": 0.8}),
+    ("after_pack", BASE + [("append", "A", "inbox", [], 0), ("append", "A", "inbox", [], 0)],
+     {"pre": PRE + [("store", "A", [[1, 1], [4, 4]], "+", ["Deleted"], False, False), ("expunge", "A"), ("poll",), ("poll",)],
+      "body": [("store", "A", [[1, 1]], "+", ["Answered"], False, False)]},
+     infl("Store", src="inbox", set_=[[1, 1]], flags=["Answered"], mode="+"), {"pack_limit": 2, "pack_ratio": 0.8}),
     ("rename", BASE, {"pre": PRE, "body": [("rename", "A", "b", "c/d")]}, infl("Rename", src="b", dst="c/d"), {}),
     ("delete", BASE, {"pre": PRE, "body": [("delete", "A", "b")]}, infl("Delete", src="b"), {}),
     ("create", BASE, {"pre": PRE, "body": [("create", "A", "x/y")]}, infl("Create", dst="x/y"), {}),
